@@ -147,6 +147,26 @@ def run(repo):
             # pi filled through eq / ineq masks
             fills = [n for n in walk_no_nested(fi.node) if isinstance(n, ast.Assign)
                      and isinstance(n.targets[0], ast.Subscript) and ntext(n.targets[0].value) == 'pi']
+            # rows handed to the solver in two blocks (equalities / inequalities)?
+            split = [n for n in walk_no_nested(fi.node) if isinstance(n, ast.Assign)
+                     and isinstance(n.targets[0], ast.Name) and isinstance(n.value, ast.Subscript)
+                     and ntext(n.value.value).endswith('linear') and
+                     any(k in ntext(n.value.slice) for k in ('eq', 'sense'))]
+            has_y = any(isinstance(n, ast.Assign) and any(isinstance(t, ast.Name) and t.id == 'y' for t in n.targets)
+                        and isinstance(n.value, ast.Dict) for n in walk_no_nested(fi.node))
+            if has_y and len(split) >= 2:
+                masks = {ntext(n.targets[0].slice) for n in fills}
+                ok = len(fills) >= 2 and any('ineq' in m or m.startswith('~') for m in masks) and \
+                    any(('eq' in m and 'ineq' not in m) for m in masks)
+                res.inst({'interface': fi.fq, 'rows_split_by_sense': [ntext(n.targets[0]) for n in split],
+                          'pi_filled_through_masks': sorted(masks), 'ok': ok}, ok)
+                if not ok:
+                    res.fail(Finding(RULE, fi.fq, 'pi not scattered back',
+                                     '%s hands the rows to the solver in two blocks (%s) but does not scatter '
+                                     'the multipliers back through the equality and inequality masks: pi is in '
+                                     'the solver\'s row order, not in the order of the compiled program that '
+                                     'ciarray labels' % (fi.fq, ', '.join(ntext(n.targets[0]) for n in split)),
+                                     repo.where(fi), P))
             for n in fills:
                 idx = ntext(n.targets[0].slice)
                 val = ntext(n.value)
